@@ -1277,7 +1277,7 @@ for _p in ("C07", "C10"):
       what="any directed path through all nodes is taken for the chain 0 -> 1 -> ... -> p-1")
     V("r7-%s-chain-test-on-pattern" % _p.lower(), _p, "silent" if _p == "C07" else "fire", UT, _CHAIN_TEST, "    return ((A != 0) == chain_graph(p)).all()\n",
       rule=None if _p == "C07" else "PAT", what="weighted chains in natural order take the shortcut too: fine for mec (0/1 members), wrong for imec "
-      "(chain_graph_IMEC compares the members with the raw weights)")
+      "(chain_graph_IMEC compares the members with the raw weights)", breaks=("C10",))
 _NA = "    return neighbors(y, A) & adj(x, A)\n"
 V("r7-c15-na-one-sided-filter", "C15", "fire", UT, _NA, "    return set(t for t in neighbors(y, A) if A[x, t] != 0)\n", rule="PW.relation", what="neighbours of y that are parents of x are dropped")
 V("r7-c15-silent-na-two-sided-filter", "C15", "silent", UT, _NA, "    return set(t for t in neighbors(y, A) if A[x, t] != 0 or A[t, x] != 0)\n", what="adjacency to x tested entry by entry, both directions")
